@@ -46,5 +46,7 @@ for name, src in req.get("history", []):
     analyse(name, src)
 res = [analyse(name, src) for name, src in req["files"]]
 json.dump({"results": res, "primaries": [p.__name__ for p in rules.primaries],
-           "dependencies": {k: [c.__name__ for c in v] for k, v in reg.dependencies.items()},
+           # Registry.dependencies is a defaultdict: looking up a primary without dependents inserts an empty list,
+           # so the KEY set depends on which statements were met; only non-empty entries are rule order
+           "dependencies": {k: [c.__name__ for c in v] for k, v in sorted(reg.dependencies.items()) if v},
            "recursion_limit": sys.getrecursionlimit()}, sys.stdout)
